@@ -29,7 +29,12 @@ SCRATCH_B = SCRATCH_B + LIST_SHAPES
 # a second document that begins with U+FEFF (a byte order mark read as text) or another invisible character: no special treatment
 # "at the start of a document", because B does not start the combined document
 SCRATCH_B = SCRATCH_B + ['\ufeff# Title\n', '\ufeff> q\n', '\ufeff- i\n', '\ufeff    code\n', '\ufeffpara\n', '\u200b# Title\n', '\u2060- i\n']
-SCRATCH_A = SCRATCH_A + [l + '\npara\n' for l in LIST_SHAPES] + ['> ' + l.replace('\n', '\n> ')[:-2] for l in LIST_SHAPES[:6]]
+# A's last block is decided by looking ahead from a paragraph line: the look-ahead must see the same thing whether the input ends
+# after A or goes on (a table of header and delimiter row only, a setext underline, a table behind a quoted or listed paragraph)
+LOOKAHEAD_A = ['text\n| a |\n|---|\n', 'text\n| a | b |\n|---|:-:|\n', 'text\na | b\n--|--\n', '> text\n| a |\n|---|\n', '> text\n> | a |\n> |---|\n',
+               'text\n| a |\n|---|\n| 1 |\n', 'one\ntwo\n| a |\n|---|\n', 'text\n| a |\n|---|  \n', '# h\ntext\n| a |\n| - |\n', 'text\n===\n', 'text\nmore\n---\n',
+               '> text\n> ===\n', 'text\n| a |\n', 'text\n|---|\n', '- item\n\ntext\n| a |\n|---|\n', 'text\n***\n', 'text\n# h\n', 'text\n> q\n']
+SCRATCH_A = SCRATCH_A + LOOKAHEAD_A + [l + '\npara\n' for l in LIST_SHAPES] + ['> ' + l.replace('\n', '\n> ')[:-2] for l in LIST_SHAPES[:6]]
 
 
 def parse(text, ts):
